@@ -326,11 +326,12 @@ func (e *env) snapshot(th *lua.LState) []string {
 			mark = "E"
 		}
 		// enteredFromGo: frame i was entered through callR (from Go code: host call, library
-		// callback, metamethod, iterator), i.e. it is the base frame of a dispatch loop; a coroutine's
-		// bottom frame ends the coroutine instead (no poll after it)
+		// callback, metamethod, iterator, body of a coroutine), i.e. it is the base frame of a dispatch loop
 		enteredFromGo := func(i int) bool {
 			if i == 0 {
-				return cur.Parent == nil
+				// the bottom frame of a thread: a host call, or the body of a coroutine (a Go
+				// function that ends a coroutine is followed by a poll as well)
+				return true
 			}
 			b := frames[i-1]
 			if b.Fn == nil || b.Fn.IsG {
